@@ -101,6 +101,23 @@ def unit_C02t(src):
     return u
 
 
+def unit_C08m(src, space):
+    """C08 also owns the Transform impls of Matrix3 (both flavours) and Matrix4: apply, concat, concat_self, inverse*"""
+    u = Unit('C08m' + ('2' if 'Point2' in space else '3'), src, 'R')
+    lib, F = base_linear(u, space)
+    c_matrix.build_c02(lib, F)
+    u.spec_texts.append(lib.text())
+    u.spec_texts.append(c_matrix.cf_spec())
+    hints, polys, lemmas = c_matrix.c02_hints(F)
+    u.contract_fns.insert(0, c_matrix.contracts_c02(hints))
+    u.contract_fns.insert(0, c_matrix.contract_det_sub)
+    u.select(Sel('SquareMatrix', c_matrix.MAT, ['determinant', 'invert']),
+             Sel('Transform', c_matrix.MAT, ['inverse_transform', 'inverse_transform_vector', 'concat_self'], trait_args=space))
+    u.free_fns.append(('matrix', 'det_sub_proc_unsafe'))
+    u.assume_pred = lambda im, f: not (im is not None and trait_name_of(im) == 'Transform')
+    return u
+
+
 def unit_C02(src, model='R', dims=(2, 3, 4)):
     u = Unit('C02', src, model)
     lib, F = base_linear(u)
@@ -458,7 +475,8 @@ def unit_C11(src):
     u.contract_fns.insert(0, c_metric.contracts)
     c_metric.select(u)
     own = lambda im, f: im is not None and ((trait_name_of(im) == 'InnerSpace' and f.name in ('magnitude', 'normalize', 'normalize_to', 'project_on', 'angle', 'is_perpendicular'))
-                                            or (trait_name_of(im) == 'MetricSpace' and f.name == 'distance'))
+                                            or (trait_name_of(im) == 'InnerSpace' and f.name == 'magnitude2')
+                                            or (trait_name_of(im) == 'MetricSpace' and f.name in ('distance', 'distance2')))
     u.assume_pred = lambda im, f: not own(im, f)
     u.lemma_texts.append(sym.HELPER_LEMMAS)
     for L in c_vector.laws(F):
@@ -607,7 +625,7 @@ def build_C03(src, tier):
     return [unit_C03(src, 'R')]
 
 
-UNITS = {'C19': lambda src, tier: [unit_C19g(src)], 'C16': lambda src, tier: [unit_C16s(Source_swz())], 'C17': lambda src, tier: [unit_C17(src), unit_C17p(src)], 'C09': lambda src, tier: [unit_C09(src, 'q'), unit_C09(src, 'b3'), unit_C09(src, 'b2'), unit_C09i(src)], 'C15': lambda src, tier: [unit_arc(src, 'C15')], 'C14': lambda src, tier: [unit_arc(src, 'C14')], 'C18': lambda src, tier: [unit_C18(src)], 'C11': lambda src, tier: [unit_C11(src)], 'C10': lambda src, tier: [unit_C10(src, 'Rad'), unit_C10(src, 'Deg')], 'C08': lambda src, tier: [unit_C08(src, 'q'), unit_C08(src, 'b3'), unit_C08(src, 'b2')], 'C05': lambda src, tier: [unit_conv(src, 'C05', 'Rad')], 'C07': lambda src, tier: [unit_conv(src, 'C07', 'Rad'), unit_conv(src, 'C07', 'Deg')], 'C06': lambda src, tier: [unit_C06(src, 'Rad'), unit_C06(src, 'Deg')], 'C13': lambda src, tier: [unit_C13(src, 'R')], 'C04': lambda src, tier: [unit_C04(src, 'R')], 'C02': lambda src, tier: [unit_C02(src, 'R'), unit_C02t(src)], 'C01': lambda src, tier: [unit_C01(src, 'R'), unit_C01t(src, 'R')], 'C03': build_C03, 'C12': lambda src, tier: [unit_C12(src, 'R')]}
+UNITS = {'C19': lambda src, tier: [unit_C19g(src)], 'C16': lambda src, tier: [unit_C16s(Source_swz())], 'C17': lambda src, tier: [unit_C17(src), unit_C17p(src)], 'C09': lambda src, tier: [unit_C09(src, 'q'), unit_C09(src, 'b3'), unit_C09(src, 'b2'), unit_C09i(src)], 'C15': lambda src, tier: [unit_arc(src, 'C15')], 'C14': lambda src, tier: [unit_arc(src, 'C14')], 'C18': lambda src, tier: [unit_C18(src)], 'C11': lambda src, tier: [unit_C11(src)], 'C10': lambda src, tier: [unit_C10(src, 'Rad'), unit_C10(src, 'Deg')], 'C08': lambda src, tier: [unit_C08(src, 'q'), unit_C08(src, 'b3'), unit_C08(src, 'b2'), unit_C08m(src, r'Point3<S>'), unit_C08m(src, r'Point2<S>')], 'C05': lambda src, tier: [unit_conv(src, 'C05', 'Rad')], 'C07': lambda src, tier: [unit_conv(src, 'C07', 'Rad'), unit_conv(src, 'C07', 'Deg')], 'C06': lambda src, tier: [unit_C06(src, 'Rad'), unit_C06(src, 'Deg')], 'C13': lambda src, tier: [unit_C13(src, 'R')], 'C04': lambda src, tier: [unit_C04(src, 'R')], 'C02': lambda src, tier: [unit_C02(src, 'R'), unit_C02t(src)], 'C01': lambda src, tier: [unit_C01(src, 'R'), unit_C01t(src, 'R')], 'C03': build_C03, 'C12': lambda src, tier: [unit_C12(src, 'R')]}
 import kani_driver
 KANI = kani_driver.GROUPS
 from meta import META
